@@ -38,6 +38,7 @@ static ssize_t sink_write(void* c, const char* buf, size_t n) {
 }
 // bufmode: 0 = stdio's default buffering, 1 = unbuffered, 2.. = fully buffered with 16 << (bufmode - 2) bytes
 static uint64_t describe_to_sink(cbor_item_t* it, uint64_t fail_after = ~0ull, unsigned bufmode = 0, uint64_t* errors = nullptr) {
+  if (g_shared_describe && g_task_mode && fail_after == ~0ull) { cbor_describe(it, g_shared_describe); if (errors) *errors = 0; return 7; }   // one stream for all tasks: stdio's own locking is all that orders them
   Sink sk; sk.fail_after = fail_after; cookie_io_functions_t io = {nullptr, sink_write, nullptr, nullptr};
   FILE* f = fopencookie(&sk, "w", io); if (!f) return 0;
   static thread_local char vbuf[4096];
@@ -762,10 +763,47 @@ OpResult Hist::run_op(const HOp& op0) {
       // self-contained marathons on one very large flat container (built and released inside the op; the model is not involved):
       //  a%4 = 0/1/2: growth of an indefinite array / map / chunked string over hundreds of thousands to millions of insertions
       //  a%4 = 3    : decode -> compare -> serialise -> release of a definite or indefinite array/map with a member count around 2^16, 2^18, 2^19
-      unsigned variant = (unsigned)(op.a % 5);
+      unsigned variant = (unsigned)(op.a % 6);
       sa_set_max_request((uint64_t)256 << 20);     // for this task only
       uint64_t sig_before = sa_live_sig();
-      OpScope S(*this, op, variant == 3 ? "C03" : variant == 4 ? "C04,C13" : "C12");
+      OpScope S(*this, op, variant == 3 ? "C03" : variant >= 4 ? "C04,C13" : "C12");
+      if (variant == 5) {
+        //  a%6 = 5: an item whose encoding does not fit in size_t - impossible for a tree, possible for a graph with shared sub-items:
+        //  a byte string over a lazily committed 16 TiB mapping, referenced 1024 times by `mid`, which `top` references 512 times
+        //  (2^63 bytes), with `top` then used twice in one parent. cbor_serialized_size must answer 0 ("does not fit") and
+        //  cbor_serialize_alloc must fail the documented way - 0 returned, *buffer NULL - and own nothing afterwards.
+        if (g_task_mode) { sa_set_max_request(0); break; }
+        const size_t LEAF = (size_t)1 << 44;
+        void* region = sa_client_map_huge(LEAF);
+        if (!region) { stat_add("huge_mapping_unavailable"); sa_set_max_request(0); break; }
+        cbor_item_t* leaf = cbor_new_definite_bytestring(); cbor_item_t* mid = cbor_new_definite_array(1024); cbor_item_t* top = cbor_new_definite_array(512);
+        cbor_item_t* parent = (op.c & 1) ? cbor_new_definite_map(1) : cbor_new_definite_array(2 + op.c % 3);
+        bool built = leaf && mid && top && parent;
+        if (leaf) cbor_bytestring_set_handle(leaf, (cbor_mutable_data)region, LEAF); else sa_client_free(region);
+        for (unsigned i = 0; built && i < 1024; i++) built = cbor_array_push(mid, leaf);
+        for (unsigned i = 0; built && i < 512; i++) built = cbor_array_push(top, mid);
+        if (built) {
+          if (op.c & 1) { struct cbor_pair pr; pr.key = top; pr.value = top; built = cbor_map_add(parent, pr); }
+          else for (unsigned i = 0; built && i < 2 + op.c % 3; i++) built = cbor_array_push(parent, top);
+        }
+        if (built) {
+          R.executed = true;
+          uint64_t live0 = sa_live_count(), req0 = sa_total_requests();
+          size_t half = cbor_serialized_size(top), whole = cbor_serialized_size(parent);
+          if (sa_total_requests() != req0) fail("C13", "size-computation-allocates", S.ctx);
+          if (half == 0 || half < ((size_t)1 << 63)) fail("C03,C07,C20", "serialized-size-wrong", S.ctx + fmt(": a 2^63-byte encoding is reported as %zu", half));
+          if (whole != 0) fail("C04,C13", "serialize-alloc-failure-leaves-buffer", S.ctx + fmt(": cbor_serialized_size reports %zu for an item whose encoding exceeds SIZE_MAX (0 expected); cbor_serialize_alloc sizes its buffer with it", whole));
+          unsigned char* buf = (unsigned char*)(uintptr_t)0x1; size_t bs = 12345;
+          size_t wr = cbor_serialize_alloc(parent, &buf, &bs);
+          if (wr != 0) fail("C04,C13", "serialize-alloc-failure-leaves-buffer", S.ctx + fmt(": cbor_serialize_alloc returned %zu for an item that cannot be serialised", wr));
+          else if (buf != nullptr || sa_live_count() != live0) { fail("C04,C13", "serialize-alloc-failure-leaves-buffer", S.ctx + fmt(": cbor_serialize_alloc returned 0 (failure) but left %s and %lld block(s) more than before: memory the client is never told about", buf ? "a buffer in *buffer" : "no buffer", (long long)(sa_live_count() - live0))); }
+          stat_add("marathon_size_overflow");
+        }
+        if (!failed()) { if (parent) cbor_decref(&parent); if (top) cbor_decref(&top); if (mid) cbor_decref(&mid); if (leaf) cbor_decref(&leaf); }
+        if (!failed() && sa_live_sig() != sig_before) fail("C04,C13", "op-leaks-block", S.ctx + ": blocks remain after the oversized graph was released");
+        sa_set_max_request(0);
+        break;
+      }
       if (variant == 4) {
         //  a%5 = 4: more than 2^32 references to one item (a history no container can hold, but a client taking and releasing
         //  references in a loop can): the count must not wrap
@@ -793,28 +831,44 @@ OpResult Hist::run_op(const HOp& op0) {
         cbor_item_t* c = variant == 0 ? cbor_new_indefinite_array() : variant == 1 ? cbor_new_indefinite_map() : cbor_new_indefinite_bytestring();
         cbor_item_t* e = variant == 2 ? cbor_build_bytestring((const unsigned char*)"x", 1) : cbor_build_uint8(7);
         if (c && e) {
-          sa_begin(FaultSpec()); uint64_t done = 0; bool ok = true;
+          // half of the marathons refuse ONE late growth step (tables of 1 MiB and more): memory pressure arrives when containers are big.
+          // The insertion must be refused with the container intact; the client retries and carries on.
+          FaultSpec mf; uint64_t refusals_seen = 0;
+          if (op.d % 2 == 1) { mf.kind = F_NTH; mf.k = (variant == 1 ? 16 : 17) + op.b % 4; }     // the window's requests are the growth steps: 0->1, 1->2, 2->4, ...
+          sa_begin(mf); uint64_t done = 0; bool ok = true;
           bool over = false;
           for (uint64_t i = 0; i < n && ok && !over; i++) {
+            uint64_t refused0 = sa_window().refused;
+            size_t size0 = variant == 0 ? cbor_array_size(c) : variant == 1 ? cbor_map_size(c) : cbor_bytestring_chunk_count(c);
+            size_t cap0 = variant == 0 ? cbor_array_allocated(c) : variant == 1 ? cbor_map_allocated(c) : 0;
             if (variant == 0) ok = cbor_array_push(c, e);
             else if (variant == 1) { struct cbor_pair pr; pr.key = e; pr.value = e; ok = cbor_map_add(c, pr); }
             else ok = cbor_bytestring_add_chunk(c, e);
+            if (sa_window().refused > refused0) {
+              refusals_seen++;
+              size_t size1 = variant == 0 ? cbor_array_size(c) : variant == 1 ? cbor_map_size(c) : cbor_bytestring_chunk_count(c);
+              size_t cap1 = variant == 0 ? cbor_array_allocated(c) : variant == 1 ? cbor_map_allocated(c) : 0;
+              if (ok) { fail("C12,C06", "insert-accepted-wrongly", S.ctx + fmt(": insertion %llu succeeded although the growth request it needed was refused", (unsigned long long)i)); break; }
+              if (size1 != size0 || cap1 != cap0 || cbor_refcount(e) != 1 + size0 * (variant == 1 ? 2 : 1)) { fail("C12,C06", "failed-op-changes-container", S.ctx + fmt(": refused insertion %llu left size %zu->%zu, capacity %zu->%zu", (unsigned long long)i, size0, size1, cap0, cap1)); break; }
+              ok = true; i--; continue;        // the client tries again (the refusal was a one-off)
+            }
             if (ok) done++;
             // a growth policy that is not geometric makes this loop quadratic: stop as soon as the budget for the whole marathon is spent
-            if ((i & 1023) == 1023 && sa_window().reallocs > growth_budget(n, sa_window().min_growth)) over = true;
+            if ((i & 1023) == 1023 && sa_window().reallocs - sa_window().refused > growth_budget(n, sa_window().min_growth)) over = true;
           }
           OpWindow w = sa_end(); R.executed = true; R.requests = w.requests;
           uint64_t budget = growth_budget(n, w.min_growth);
-          if (over) fail("C12", "growth-not-geometric", S.ctx + fmt(": %llu reallocations after only %llu of %llu insertions (budget for all of them: %llu)", (unsigned long long)w.reallocs, (unsigned long long)done, (unsigned long long)n, (unsigned long long)budget));
+          if (failed()) {}
+          else if (over) fail("C12", "growth-not-geometric", S.ctx + fmt(": %llu reallocations after only %llu of %llu insertions (budget for all of them: %llu)", (unsigned long long)w.reallocs, (unsigned long long)done, (unsigned long long)n, (unsigned long long)budget));
           else if (!ok || done != n) fail("C12", "insert-refused-wrongly", S.ctx + fmt(": insertion %llu of %llu into an indefinite container was refused although no allocation was", (unsigned long long)done, (unsigned long long)n));
-          else if (w.reallocs > budget) fail("C12", "growth-not-geometric", S.ctx + fmt(": %llu reallocations for %llu insertions (budget %llu)", (unsigned long long)w.reallocs, (unsigned long long)n, (unsigned long long)budget));
+          else if (w.reallocs - w.refused > budget) fail("C12", "growth-not-geometric", S.ctx + fmt(": %llu reallocations for %llu insertions (budget %llu)", (unsigned long long)(w.reallocs - w.refused), (unsigned long long)n, (unsigned long long)budget));
           else {
             size_t sz = variant == 0 ? cbor_array_size(c) : variant == 1 ? cbor_map_size(c) : cbor_bytestring_chunk_count(c);
             size_t al = variant == 0 ? cbor_array_allocated(c) : variant == 1 ? cbor_map_allocated(c) : sz;
             if (sz != n || sz > al) fail("C12", "model-divergence", S.ctx + fmt(": size %zu allocated %zu after %llu insertions", sz, al, (unsigned long long)n));
             if (cbor_refcount(e) != 1 + n * (variant == 1 ? 2 : 1)) fail("C04,C12", "refcount-differs-from-ownership-rules", S.ctx + fmt(": element refcount %zu after %llu insertions", cbor_refcount(e), (unsigned long long)n));
           }
-          stat_add("marathon_growth"); stat_max("max_marathon_insertions", n);
+          stat_add("marathon_growth"); stat_max("max_marathon_insertions", n); if (refusals_seen) stat_add("marathon_growth_with_late_refusal");
         }
         if (c) cbor_decref(&c);
         if (e) cbor_decref(&e);
